@@ -544,7 +544,11 @@ class Gen:
 
     def rand_shape(self):
         nd = int(self.rng.choice([0, 1, 1, 2, 2][:2 + 2 * self.max_ndim - 1] if self.max_ndim < 2 else [0, 1, 1, 2, 2]))
-        return tuple(int(self.rng.choice(LENGTHS)) for _ in range(nd))
+        shape = tuple(int(self.rng.choice(LENGTHS)) for _ in range(nd))
+        if nd == 2 and self.rng.random() < .3:
+            n = int(self.rng.choice([2, 3]))
+            shape = (n, n)      # square: a transposed value / direction has the right shape
+        return shape
 
     # -- leaves
     def seed_free(self, nsig=None):
